@@ -1,6 +1,13 @@
 """G-params: hydraulic parameter sets and level grids"""
 
 
+def shuffled_keys(rng, params):
+    """The same mapping with its keys in another order (a parameter file may list them in any)"""
+    keys = list(params)
+    rng.shuffle(keys)
+    return {k: params[k] for k in keys}
+
+
 def spline_sy(rng, positive=True):
     n = rng.randint(4, 9)
     z0 = rng.choice([-1000.0, -291.7, -50.0, 0.0, 120.5, 24500.0])
@@ -20,7 +27,7 @@ def spline_sy(rng, positive=True):
         j = rng.randrange(n - 1)
         v = rng.choice([vals[j], 0.1, 1.0])
         vals[j] = vals[j + 1] = v
-    return {'type': 'spline', 'zeta_knots_mm': knots, 'sy_knots': vals}
+    return shuffled_keys(rng, {'type': 'spline', 'zeta_knots_mm': knots, 'sy_knots': vals})
 
 
 def spline_T(rng, z_lo=None):
@@ -45,8 +52,8 @@ def spline_T(rng, z_lo=None):
         K[j + 1] = K[j]
         if rng.random() < 0.2:
             K = [K[0]] * n
-    return {'type': 'spline', 'zeta_knots_mm': knots, 'K_knots_km_d': K,
-            'minimum_transmissivity_m2_d': 10 ** rng.uniform(-3, 2)}
+    return shuffled_keys(rng, {'type': 'spline', 'zeta_knots_mm': knots, 'K_knots_km_d': K,
+                               'minimum_transmissivity_m2_d': 10 ** rng.uniform(-3, 2)})
 
 
 PUBLISHED_SY = {'type': 'peatclsm', 'sd': 0.162, 'theta_s': 0.88, 'b': 7.4, 'psi_s': -0.024}
@@ -57,19 +64,19 @@ def peatclsm_sy(rng):
     mode = rng.random()
     if mode > 0.85:
         # integer-valued parameters, as `theta_s: 1` / `b: 7` load from YAML
-        return {'type': 'peatclsm', 'sd': rng.choice([1, 2, 0.162]), 'theta_s': rng.choice([1, 1, 0.88]),
-                'b': rng.choice([1, 7, 20, 7.4]), 'psi_s': rng.choice([-1, -0.024])}
+        return shuffled_keys(rng, {'type': 'peatclsm', 'sd': rng.choice([1, 2, 0.162]), 'theta_s': rng.choice([1, 1, 0.88]),
+                                   'b': rng.choice([1, 7, 20, 7.4]), 'psi_s': rng.choice([-1, -0.024])})
     if mode < 0.15:
         # corners of the PEST bounds
-        return {'type': 'peatclsm', 'sd': rng.choice([1e-3, 2.0]), 'theta_s': rng.choice([0.01, 1.0]),
-                'b': rng.choice([0.01, 20.0]), 'psi_s': rng.choice([-1.0, -0.01])}
-    return {'type': 'peatclsm', 'sd': rng.uniform(0.01, 2.0), 'theta_s': rng.uniform(0.01, 1.0),
-            'b': rng.uniform(0.05, 20.0), 'psi_s': -rng.uniform(0.01, 1.0)}
+        return shuffled_keys(rng, {'type': 'peatclsm', 'sd': rng.choice([1e-3, 2.0]), 'theta_s': rng.choice([0.01, 1.0]),
+                                   'b': rng.choice([0.01, 20.0]), 'psi_s': rng.choice([-1.0, -0.01])})
+    return shuffled_keys(rng, {'type': 'peatclsm', 'sd': rng.uniform(0.01, 2.0), 'theta_s': rng.uniform(0.01, 1.0),
+                               'b': rng.uniform(0.05, 20.0), 'psi_s': -rng.uniform(0.01, 1.0)})
 
 
 def peatclsm_T(rng):
-    return {'type': 'peatclsm', 'Ksmacz0': rng.choice([10 ** rng.uniform(-4, 5), 7, 1]), 'alpha': rng.choice([rng.uniform(1.01, 20.0), 3, 2, 1.5]),
-            'zeta_max_cm': rng.choice([1.0, 0.0, 5.0, 1, 0, rng.uniform(-10, 30)])}
+    return shuffled_keys(rng, {'type': 'peatclsm', 'Ksmacz0': rng.choice([10 ** rng.uniform(-4, 5), 7, 1]), 'alpha': rng.choice([rng.uniform(1.01, 20.0), 3, 2, 1.5]),
+                               'zeta_max_cm': rng.choice([1.0, 0.0, 5.0, 1, 0, rng.uniform(-10, 30)])})
 
 
 def level_grid(rng, lo, hi, n=None, beyond=True):
